@@ -120,6 +120,23 @@ func newUnexpectedValueError(tok token, expected string) error {
 	return &UnexpectedValueError{newBaseError(tok.Pos), tok, expected}
 }
 
+// UnexpectedExprError describes an expression of a kind that is not allowed
+// where it stands, such as a literal where a name is required.
+type UnexpectedExprError struct {
+	baseError
+	actual   Expr
+	expected string
+}
+
+func (e *UnexpectedExprError) Error() string {
+	return e.sprintf(`expected %s, got "%v"`, e.expected, e.actual)
+}
+
+// newUnexpectedExprError returns a new UnexpectedExprError located at actual.
+func newUnexpectedExprError(actual Expr, expected string) error {
+	return &UnexpectedExprError{newBaseError(actual.Start()), actual, expected}
+}
+
 // MultipleExtendsError describes an attempt to extend from multiple parent templates.
 type MultipleExtendsError struct {
 	baseError
